@@ -142,6 +142,25 @@ def gv_specs(draw, tier):
     return b
 
 
+def _maps_to_q_plus_G(rots, q):
+    """some point-group operation (or its product with time reversal) sends q to q + G with G a non-zero reciprocal lattice vector"""
+    for r in rots:
+        for sgn in (1, -1):
+            d = sgn * (r.T @ q) - q
+            if np.abs(d - np.rint(d)).max() < 1e-5 and np.abs(np.rint(d)).max() > 0:
+                return True
+    return False
+
+
+GV_FAC_SPEC = {"crystal": {"kind": "hall", "key": 0, "hall": 3, "norbits": 2, "max_unit": 6, "perm": False, "rot": False, "masses": False},
+               "smat": [[1, 0, 0], [0, 1, 0], [0, 0, 1]], "key": 0, "pmat": "none", "compact": False, "q": [0.0, 1.0, 0.5], "model": "springs",
+               "nac": "wang", "q_length": None, "via": "qpoints", "gv_cutoff": None}
+
+
+def _repro_fac():
+    return "excluded_known:F-ac" in run_gv(dict(GV_FAC_SPEC))["classes"]
+
+
 def run_gv(spec):
     ph, c, out = _phonopy(spec, group_velocity_delta_q=spec["q_length"])
     if ph is None:
@@ -225,6 +244,16 @@ def run_gv(spec):
     tol = 1e-5 if spec["q_length"] in (None, 1e-5) else 3e-3
     if spec["nac"] == "gonze":
         tol = max(tol, 1e-4)
+    if e > tol and spec["nac"] == "wang" and _maps_to_q_plus_G(rp, q):
+        # signature of known finding F-ac: Wang's interpolation is not periodic in q, yet the velocities are averaged over operations
+        # that bring q back only up to a reciprocal lattice vector. Narrow: the velocity WITHOUT that averaging must equal the gradient.
+        from phonopy.phonon.group_velocity import GroupVelocity
+
+        kw = {} if spec["q_length"] is None else {"q_length": spec["q_length"]}
+        g0 = GroupVelocity(ph.dynamical_matrix, symmetry=None, frequency_factor_to_THz=ph.unit_conversion_factor, **kw)
+        g0.run([q])
+        if np.abs(g0.group_velocities[0][ok] - grad[ok]).max() / vscale <= tol:
+            return Out(ok=True, nontrivial=False, classes=["excluded_known:F-ac"], info={"err": e})
     if e > tol:
         return Out(ok=False, info={"err": e}, msg="group velocity differs from the gradient of the reported frequency: rel %.3e (nac %s, q_length %s, via %s, "
                    "q=%s, %d modes compared)" % (e, spec["nac"], spec["q_length"], spec["via"], q.tolist(), int(ok.sum())))
@@ -356,6 +385,8 @@ def run_gruneisen(spec):
     return Out(ok=True, nontrivial=True, classes=["asym" if spec["b"] != "same" else "sym", "delta:" + ("explicit" if spec["explicit_delta"] else "default"),
                                                   "reduced" if len(res[True][0]) < len(res[False][0]) else "noreduction"], info={"err": e})
 
+
+KNOWN_REPRO = {"F-ac": _repro_fac}
 
 SUBCHECKS = [
     Sub("ddm", run=run_ddm, strategy=ddm_specs, examples={"quick": 400, "thorough": 15000}, shards={"quick": 8, "thorough": 16},
